@@ -1055,21 +1055,24 @@ impl SolarDay {
       i = 0;
     }
     let mut term: SolarTerm = SolarTerm::from_index(y, i as isize);
-    let mut day: SolarDay = term.get_julian_day().get_solar_day();
-    while self.is_before(day) {
+    // 在儒略日数轴上比较（节气所在日 = 节气时刻四舍五入到秒后的日期），避免构造超出公历范围的日期
+    let day_number = |t: &SolarTerm| -> f64 { (t.get_julian_day().get_day() + 0.5 + 0.5 / 86400.0).floor() };
+    let today: f64 = self.get_julian_day().get_day() + 0.5;
+    let mut start: f64 = day_number(&term);
+    while today < start {
       term = term.next(-1);
-      day = term.get_julian_day().get_solar_day();
+      start = day_number(&term);
     }
     loop {
       let next_term: SolarTerm = term.next(1);
-      let next_day: SolarDay = next_term.get_julian_day().get_solar_day();
-      if self.is_before(next_day) {
+      let next_start: f64 = day_number(&next_term);
+      if today < next_start {
         break;
       }
       term = next_term;
-      day = next_day;
+      start = next_start;
     }
-    SolarTermDay::new(term, self.subtract(day) as usize)
+    SolarTermDay::new(term, (today - start) as usize)
   }
 
   /// 儒略日
@@ -1566,12 +1569,15 @@ impl SolarTime {
       i = 0;
     }
     let mut term: SolarTerm = SolarTerm::from_index(y, i as isize);
-    while self.is_before(term.get_julian_day().get_solar_time()) {
+    // 在儒略日数轴上比较（节气时刻四舍五入到秒），避免构造超出公历范围的时刻
+    let now: f64 = self.get_julian_day().get_day();
+    let starts_later = |t: &SolarTerm| -> bool { ((t.get_julian_day().get_day() - now) * 86400.0).round() > 0.0 };
+    while starts_later(&term) {
       term = term.next(-1);
     }
     loop {
       let next_term: SolarTerm = term.next(1);
-      if self.is_before(next_term.get_julian_day().get_solar_time()) {
+      if starts_later(&next_term) {
         break;
       }
       term = next_term;
